@@ -720,6 +720,18 @@ def fifo1(ctx: Ctx, chk) -> None:
         chk.ok(rule, fkey(init, qc), "asyncio.Queue() - FIFO, unbounded", ctx.loc(init, qc))
     else:
         chk.refute(rule, fkey(init, qc), f"`{norm(qc)}` is not an unbounded FIFO asyncio.Queue (ordering or put_nowait totality is lost)", ctx.loc(init, qc))
+    # the queue object lives as long as the transport: a read suspended in get() waits on the object it was given, so
+    # rebinding the attribute later (e.g. "start with an empty queue" in connect) leaves that reader waiting forever
+    # on a queue nothing is put into any more, and drops what was queued but not yet read
+    for g_ in prog.all_functions():
+        if g_ is init or not g_.module.name.startswith("aiomysensors"):
+            continue
+        for n_ in ctx.own_nodes(g_):
+            tg_ = n_.targets if isinstance(n_, ast.Assign) else [n_.target] if isinstance(n_, (ast.AnnAssign, ast.AugAssign)) else []
+            for t_ in tg_:
+                if isinstance(t_, ast.Attribute) and t_.attr == "_incoming_messages":
+                    chk.instance(rule)
+                    chk.refute(rule, fkey(g_, n_) + "::queue-rebound", f"`{norm(n_)[:70]}` in {g_.qualname} replaces the receive queue after construction: a read() already waiting in get() keeps waiting on the old queue and is never served again (silent deafness), and messages / errors still queued there are lost", ctx.loc(g_, n_))
     # all queue operations in the package
     allowed = {"_receive": ("put_nowait",), "_receive_error": ("put_nowait",), "read": ("get", "task_done")}
     ANCH_Q = ("_receive", "_receive_error", "_parse_mqtt_to_message", "_parse_message_to_mqtt", "_connect", "_disconnect", "_subscribe", "_publish", "_handle_incoming")
